@@ -312,6 +312,8 @@ def _argparse_kwargs(p):
         kws.append("type=%s" % base)
     elif base == "str" or base is None:
         pass
+    elif base.isidentifier():
+        kws.append("type=%s" % base)  # a converter named by the user (Path, Decimal, loads)
     else:
         kws.append("type=str")
     kws.append("help=%r" % (p.get("doc") or ""))
@@ -322,7 +324,7 @@ def _argparse_kwargs(p):
     return kws
 
 
-def render_argparse(desc, name="set_cli_args", indent=""):
+def render_argparse(desc, name="set_cli_args", indent="", docstring=True):
     ind = indent + "    "
     lines = [indent + "def %s(argument_parser):" % name, ind + '"""', ind + "Set CLI arguments", "",
              ind + ":param argument_parser: argument parser", ind + ":type argument_parser: ```ArgumentParser```", ""]
@@ -333,6 +335,8 @@ def render_argparse(desc, name="set_cli_args", indent=""):
     else:
         lines += [ind + ":returns: argument_parser", ind + ":rtype: ```ArgumentParser```"]
     lines.append(ind + '"""')
+    if not docstring:
+        lines = lines[:1]  # a hand-written set_cli_args often has no docstring at all
     lines.append(ind + "argument_parser.description = %r" % desc["doc"])
     for p in desc["params"]:
         lines.append(ind + "argument_parser.add_argument(%s)" % ", ".join(["'--%s'" % p["name"]] + _argparse_kwargs(p)))
